@@ -1077,7 +1077,7 @@ class SourceFinder(object):
             idx, idy = np.where(abs(idata) - outerclip * rms > 0)
             idx += xmin
             idy += ymin
-            self.global_data.img[[idx, idy]] = np.nan
+            self.global_data.img[idx, idy] = np.nan
 
         # calculate the integrated island flux if required
         if island_data.doislandflux:
